@@ -1,4 +1,3 @@
-import ImathVerif.Lemmas.C09QuatTree
 import ImathVerif.Lemmas.C09NextFrame
 /-!
 Helper lemmas for C09: `rotationMatrix(from, to) = Quat::setRotation(from, to).toMatrix44()`.
@@ -13,15 +12,6 @@ open ImathVerif Matrix
 
 section QuatRot
 variable {α : Type} [Field α] [LinearOrder α] [IsStrictOrderedRing α]
-
-/-- rows of `Quat::toMatrix44` -/
-def qRow0 (q : Quat α) : V3 α := ⟨1 - 2 * (q.v.y * q.v.y + q.v.z * q.v.z), 2 * (q.v.x * q.v.y + q.v.z * q.r), 2 * (q.v.z * q.v.x - q.v.y * q.r)⟩
-def qRow1 (q : Quat α) : V3 α := ⟨2 * (q.v.x * q.v.y - q.v.z * q.r), 1 - 2 * (q.v.z * q.v.z + q.v.x * q.v.x), 2 * (q.v.y * q.v.z + q.v.x * q.r)⟩
-def qRow2 (q : Quat α) : V3 α := ⟨2 * (q.v.z * q.v.x + q.v.y * q.r), 2 * (q.v.y * q.v.z - q.v.x * q.r), 1 - 2 * (q.v.y * q.v.y + q.v.x * q.v.x)⟩
-
-theorem quatToMatrix44_eq (q : Quat α) : Gen.Frame.quatToMatrix44 q = frameM44 (qRow0 q) (qRow1 q) (qRow2 q) ⟨0, 0, 0⟩ := by
-  unfold Gen.Frame.quatToMatrix44 frameM44 qRow0 qRow1 qRow2
-  congr 1 <;> ring1
 
 /-- a UNIT quaternion gives a rotation matrix -/
 theorem isRot_quat {q : Quat α} (hq : q.r * q.r + dot q.v q.v = 1) : IsRot (rows3 (qRow0 q) (qRow1 q) (qRow2 q)) := by
@@ -78,29 +68,19 @@ theorem halfTurn_bisector {len : V3 α → α} (hlen : LenSpec len) {f t : V3 α
     linear_combination (f3 + t3) * hf - (f3 + t3) * ht - (f3 + t3) * h2
 
 
-/-- `rotationMatrix(from, to)`: the extracted composition (non-zero `from`, `to`) -/
-theorem rotationMatrix_eq (tmin teps : α) (sqrt : α → α) (fromDir toDir : V3 α)
-    (h1 : Gen.V3.length tmin sqrt fromDir ≠ 0) (h2 : Gen.V3.length tmin sqrt toDir ≠ 0) :
-    Gen.Frame.rotationMatrix tmin teps sqrt fromDir toDir
-      = Gen.Frame.quatToMatrix44 (quatSetRotationSpec (Gen.V3.length tmin sqrt) teps fromDir toDir) := by
-  rw [← quatSetRotation_eq_spec tmin teps sqrt ⟨1, ⟨0, 0, 0⟩⟩ fromDir toDir h1 h2]
-  obtain ⟨fx, fy, fz⟩ := fromDir
-  obtain ⟨tx, ty, tz⟩ := toDir
-  simp only [Gen.Frame.rotationMatrix, Gen.Frame.quatToMatrix44]
-
 /-- the Hamilton product of unit quaternions is a unit quaternion -/
 theorem quat_mul_unit {a b : Quat α} (ha : a.r * a.r + dot a.v a.v = 1) (hb : b.r * b.r + dot b.v b.v = 1) :
-    (Gen.Quat.mulAssign a b).r * (Gen.Quat.mulAssign a b).r + dot (Gen.Quat.mulAssign a b).v (Gen.Quat.mulAssign a b).v = 1 := by
+    (qmul a b).r * (qmul a b).r + dot (qmul a b).v (qmul a b).v = 1 := by
   obtain ⟨a0, a1, a2, a3⟩ := a
   obtain ⟨b0, b1, b2, b3⟩ := b
   simp only [dot] at ha hb
-  simp only [Gen.Quat.mulAssign, dot]
+  simp only [qmul, dot]
   linear_combination (b0 * b0 + (b1 * b1 + b2 * b2 + b3 * b3)) * ha + hb
 
 /-- matrix of a unit quaternion: frame without translation -/
-theorem quatToMatrix44_isFrame {q : Quat α} (hq : q.r * q.r + dot q.v q.v = 1) :
-    IsFrame (Gen.Frame.quatToMatrix44 q) ∧ row3 (Gen.Frame.quatToMatrix44 q) = ⟨0, 0, 0⟩ := by
-  rw [quatToMatrix44_eq]
+theorem quatM44_isFrame {q : Quat α} (hq : q.r * q.r + dot q.v q.v = 1) :
+    IsFrame (quatM44 q) ∧ row3 (quatM44 q) = ⟨0, 0, 0⟩ := by
+  unfold quatM44
   exact ⟨⟨isRot_quat hq, isAffine_frameM44 _ _ _ _⟩, rfl⟩
 
 /-- `f + t ≠ 0` for unit vectors with `f·t > −1` -/
@@ -115,19 +95,20 @@ theorem vadd_ne_zero_of_dot {f t : V3 α} (hf : dot f f = 1) (ht : dot t t = 1) 
 theorem qInternal_spec {len : V3 α → α} (hlen : LenSpec len) {f t : V3 α} (hf : dot f f = 1) (ht : dot t t = 1)
     (hs : vadd f t ≠ ⟨0, 0, 0⟩) :
     (qInternal len f t).r * (qInternal len f t).r + dot (qInternal len f t).v (qInternal len f t).v = 1 ∧
-      f.toVec ᵥ* rot3 (Gen.Frame.quatToMatrix44 (qInternal len f t)) = t.toVec := by
+      f.toVec ᵥ* rot3 (quatM44 (qInternal len f t)) = t.toVec := by
   have hh := nrm_unit hlen (len_ne_zero hlen hs)
   refine ⟨quat_fh_unit hf hh, ?_⟩
-  rw [quatToMatrix44_eq, rot3_frameM44, vecMul_rows3]
+  unfold quatM44
+  rw [rot3_frameM44, vecMul_rows3]
   show (vadd (vadd (smul f.x (qRow0 ⟨dot f _, cross f _⟩)) (smul f.y (qRow1 ⟨dot f _, cross f _⟩))) (smul f.z (qRow2 ⟨dot f _, cross f _⟩))).toVec = _
   rw [quat_fh_apply hf hh, halfTurn_bisector hlen hf ht hs]
 
 /-- angle ≤ π/2 (`from^ · to^ ≥ 0`): orthonormal right-handed, takes the direction of `from` to the direction of `to` -/
 theorem rotationMatrixSpec_acute {len : V3 α → α} (hlen : LenSpec len) (teps : α) {fromDir toDir : V3 α}
     (hf : fromDir ≠ ⟨0, 0, 0⟩) (ht : toDir ≠ ⟨0, 0, 0⟩) (hd : 0 ≤ dot (nrm len fromDir) (nrm len toDir)) :
-    IsFrame (Gen.Frame.quatToMatrix44 (quatSetRotationSpec len teps fromDir toDir)) ∧
-      row3 (Gen.Frame.quatToMatrix44 (quatSetRotationSpec len teps fromDir toDir)) = ⟨0, 0, 0⟩ ∧
-      (nrm len fromDir).toVec ᵥ* rot3 (Gen.Frame.quatToMatrix44 (quatSetRotationSpec len teps fromDir toDir)) = (nrm len toDir).toVec := by
+    IsFrame (quatM44 (quatSetRotationSpec len teps fromDir toDir)) ∧
+      row3 (quatM44 (quatSetRotationSpec len teps fromDir toDir)) = ⟨0, 0, 0⟩ ∧
+      (nrm len fromDir).toVec ᵥ* rot3 (quatM44 (quatSetRotationSpec len teps fromDir toDir)) = (nrm len toDir).toVec := by
   have huf := nrm_unit' hlen hf
   have hut := nrm_unit' hlen ht
   have hs := vadd_ne_zero_of_dot huf hut (by linarith)
@@ -135,7 +116,7 @@ theorem rotationMatrixSpec_acute {len : V3 α → α} (hlen : LenSpec len) (teps
     simp only [quatSetRotationSpec, if_pos hd]
   rw [e]
   obtain ⟨h1, h2⟩ := qInternal_spec hlen huf hut hs
-  exact ⟨(quatToMatrix44_isFrame h1).1, (quatToMatrix44_isFrame h1).2, h2⟩
+  exact ⟨(quatM44_isFrame h1).1, (quatM44_isFrame h1).2, h2⟩
 
 /-- the axis used for exactly opposite directions is a unit vector perpendicular to `f0` -/
 theorem qOppositeAxis_spec {len : V3 α → α} (hlen : LenSpec len) {f : V3 α} (hf : dot f f = 1) :
@@ -183,9 +164,9 @@ theorem quat_pure_apply {v : V3 α} (hv : dot v v = 1) (p : V3 α) :
 theorem rotationMatrixSpec_nearOpposite {len : V3 α → α} (hlen : LenSpec len) (teps : α) {fromDir toDir : V3 α}
     (hf : fromDir ≠ ⟨0, 0, 0⟩) (ht : toDir ≠ ⟨0, 0, 0⟩) (hd : dot (nrm len fromDir) (nrm len toDir) < 0)
     (hopp : dot (vadd (nrm len fromDir) (nrm len toDir)) (vadd (nrm len fromDir) (nrm len toDir)) ≤ (8 * teps) * (8 * teps)) :
-    IsFrame (Gen.Frame.quatToMatrix44 (quatSetRotationSpec len teps fromDir toDir)) ∧
-      row3 (Gen.Frame.quatToMatrix44 (quatSetRotationSpec len teps fromDir toDir)) = ⟨0, 0, 0⟩ ∧
-      (nrm len fromDir).toVec ᵥ* rot3 (Gen.Frame.quatToMatrix44 (quatSetRotationSpec len teps fromDir toDir))
+    IsFrame (quatM44 (quatSetRotationSpec len teps fromDir toDir)) ∧
+      row3 (quatM44 (quatSetRotationSpec len teps fromDir toDir)) = ⟨0, 0, 0⟩ ∧
+      (nrm len fromDir).toVec ᵥ* rot3 (quatM44 (quatSetRotationSpec len teps fromDir toDir))
         = (vneg (nrm len fromDir)).toVec := by
   have huf := nrm_unit' hlen hf
   have e : quatSetRotationSpec len teps fromDir toDir = ⟨0, qOppositeAxis len (nrm len fromDir)⟩ := by
@@ -196,8 +177,9 @@ theorem rotationMatrixSpec_nearOpposite {len : V3 α → α} (hlen : LenSpec len
       + dot (⟨0, qOppositeAxis len (nrm len fromDir)⟩ : Quat α).v (⟨0, qOppositeAxis len (nrm len fromDir)⟩ : Quat α).v = 1 := by
     simp [hv1]
   rw [e]
-  refine ⟨(quatToMatrix44_isFrame hq).1, (quatToMatrix44_isFrame hq).2, ?_⟩
-  rw [quatToMatrix44_eq, rot3_frameM44, vecMul_rows3, quat_pure_apply hv1]
+  refine ⟨(quatM44_isFrame hq).1, (quatM44_isFrame hq).2, ?_⟩
+  unfold quatM44
+  rw [rot3_frameM44, vecMul_rows3, quat_pure_apply hv1]
   simp only [halfTurn, hv2, mul_zero]
   congr 1
   generalize nrm len fromDir = f
@@ -207,9 +189,9 @@ theorem rotationMatrixSpec_nearOpposite {len : V3 α → α} (hlen : LenSpec len
 /-- exactly opposite directions: `−from^ = to^`, so the half-turn takes `from^` to `to^` -/
 theorem rotationMatrixSpec_opposite {len : V3 α → α} (hlen : LenSpec len) (teps : α) {fromDir toDir : V3 α}
     (hf : fromDir ≠ ⟨0, 0, 0⟩) (ht : toDir ≠ ⟨0, 0, 0⟩) (hopp : vadd (nrm len fromDir) (nrm len toDir) = ⟨0, 0, 0⟩) :
-    IsFrame (Gen.Frame.quatToMatrix44 (quatSetRotationSpec len teps fromDir toDir)) ∧
-      row3 (Gen.Frame.quatToMatrix44 (quatSetRotationSpec len teps fromDir toDir)) = ⟨0, 0, 0⟩ ∧
-      (nrm len fromDir).toVec ᵥ* rot3 (Gen.Frame.quatToMatrix44 (quatSetRotationSpec len teps fromDir toDir)) = (nrm len toDir).toVec := by
+    IsFrame (quatM44 (quatSetRotationSpec len teps fromDir toDir)) ∧
+      row3 (quatM44 (quatSetRotationSpec len teps fromDir toDir)) = ⟨0, 0, 0⟩ ∧
+      (nrm len fromDir).toVec ᵥ* rot3 (quatM44 (quatSetRotationSpec len teps fromDir toDir)) = (nrm len toDir).toVec := by
   have huf := nrm_unit' hlen hf
   have hneg : nrm len toDir = vneg (nrm len fromDir) := by
     generalize nrm len fromDir = f at hopp ⊢
@@ -235,8 +217,8 @@ theorem rotationMatrixSpec_opposite {len : V3 α → α} (hlen : LenSpec len) (t
 theorem rotationMatrixSpec_obtuse {len : V3 α → α} (hlen : LenSpec len) (teps : α) {fromDir toDir : V3 α}
     (hf : fromDir ≠ ⟨0, 0, 0⟩) (ht : toDir ≠ ⟨0, 0, 0⟩) (hd : dot (nrm len fromDir) (nrm len toDir) < 0)
     (hbig : (8 * teps) * (8 * teps) < dot (vadd (nrm len fromDir) (nrm len toDir)) (vadd (nrm len fromDir) (nrm len toDir))) :
-    IsFrame (Gen.Frame.quatToMatrix44 (quatSetRotationSpec len teps fromDir toDir)) ∧
-      row3 (Gen.Frame.quatToMatrix44 (quatSetRotationSpec len teps fromDir toDir)) = ⟨0, 0, 0⟩ := by
+    IsFrame (quatM44 (quatSetRotationSpec len teps fromDir toDir)) ∧
+      row3 (quatM44 (quatSetRotationSpec len teps fromDir toDir)) = ⟨0, 0, 0⟩ := by
   have huf := nrm_unit' hlen hf
   have hut := nrm_unit' hlen ht
   have hopp : vadd (nrm len fromDir) (nrm len toDir) ≠ ⟨0, 0, 0⟩ := by
@@ -249,7 +231,7 @@ theorem rotationMatrixSpec_obtuse {len : V3 α → α} (hlen : LenSpec len) (tep
   have hh : ¬ dot (nrm len (vadd (nrm len fromDir) (nrm len toDir))) (nrm len (vadd (nrm len fromDir) (nrm len toDir))) = 0 := by
     rw [huh]; exact one_ne_zero
   have e : quatSetRotationSpec len teps fromDir toDir =
-      Gen.Quat.mulAssign (qInternal len (nrm len fromDir) (nrm len (vadd (nrm len fromDir) (nrm len toDir))))
+      qmul (qInternal len (nrm len fromDir) (nrm len (vadd (nrm len fromDir) (nrm len toDir))))
         (qInternal len (nrm len (vadd (nrm len fromDir) (nrm len toDir))) (nrm len toDir)) := by
     simp only [quatSetRotationSpec, if_neg (not_le.mpr hd), if_pos hbig, if_neg hh]
   have hss : dot (vadd (nrm len fromDir) (nrm len toDir)) (vadd (nrm len fromDir) (nrm len toDir))
@@ -278,7 +260,7 @@ theorem rotationMatrixSpec_obtuse {len : V3 α → α} (hlen : LenSpec len) (tep
   have q1 := (qInternal_spec hlen huf huh (vadd_ne_zero_of_dot huf huh hfh)).1
   have q2 := (qInternal_spec hlen huh hut (vadd_ne_zero_of_dot huh hut hht)).1
   rw [e]
-  exact quatToMatrix44_isFrame (quat_mul_unit q1 q2)
+  exact quatM44_isFrame (quat_mul_unit q1 q2)
 
 end QuatRot
 end ImathVerif.C09
